@@ -297,20 +297,20 @@ Section Algo.
     match seqs with (x :: _) :: _ => Some x | _ => None end.
 
   (** multisequence_partition: [None] = a documented precondition / assertion is violated (an empty sequence,
-      no sequence, rank outside 0..N) or the loop left its documented invariant. The result is the list of
+      rank outside 0..N) or the loop left its documented invariant (proved impossible). No sequence at all (m = 0)
+      with rank 0 is the "very end" case of the code and returns the empty list of offsets. The result is the list of
       split positions [begin_offsets[i] - begin_seqs[i].first]. *)
   Definition partition_gen (midlex : bool) (seqs : list (list A)) (rank : Z) : option (list Z) :=
-    match dflt seqs with
-    | None => None
-    | Some d =>
-        if any_empty seqs then None
-        else if rank =? ztotal seqs then Some (map zlen seqs)
-        else if (rank <? 0) || (ztotal seqs <? rank) then None
-        else match core seqs d rank true midlex with
-             | Some (a, _) => Some a
-             | None => None
-             end
-    end.
+    if any_empty seqs then None                                   (* assert(distance > 0), line 136 *)
+    else if rank =? ztotal seqs then Some (map zlen seqs)         (* "very end", lines 139-144; also m = 0, rank = 0 *)
+    else if (rank <? 0) || (ztotal seqs <? rank) then None        (* assert(m != 0 && N != 0 && rank < N) *)
+    else match dflt seqs with
+         | None => None                                           (* unreachable: 0 <= rank < N makes seqs non-empty *)
+         | Some d => match core seqs d rank true midlex with
+                     | Some (a, _) => Some a
+                     | None => None
+                     end
+         end.
 
   (** the code after the repair fixes/C08/01 (what the working tree is expected to contain) *)
   Definition partition := partition_gen true.
@@ -360,6 +360,24 @@ Section Algo.
             end
         end
     end.
+
+  (** the code as shipped before b429853: the total N was accumulated in the caller's RankType, here an unsigned
+      type of [bits] bits, and the rank compared with the wrapped value (partition l.131-146, selection l.127-134).
+      Kept only for the refutation lemma [total_in_ranktype_shipped_refuted]. *)
+  Definition wrapped_total (bits : Z) (seqs : list (list A)) : Z := ztotal seqs mod 2 ^ bits.
+
+  Definition partition_total_in_ranktype_shipped (bits : Z) (seqs : list (list A)) (rank : Z) : option (list Z) :=
+    if any_empty seqs then None
+    else if rank =? wrapped_total bits seqs then Some (map zlen seqs)
+    else if (rank <? 0) || (wrapped_total bits seqs <? rank) then None     (* the assert aborts *)
+    else match dflt seqs with
+         | None => None
+         | Some d => match core seqs d rank true true with Some (a, _) => Some a | None => None end
+         end.
+
+  (** [true] = the shipped selection throws for this rank *)
+  Definition selection_total_in_ranktype_shipped_throws (bits : Z) (seqs : list (list A)) (rank : Z) : bool :=
+    (Nat.eqb (length seqs) 0) || (wrapped_total bits seqs =? 0) || (rank <? 0) || (wrapped_total bits seqs <=? rank).
 
   (** names for importers (C06, C07) that also import [List] (whose [partition] would otherwise be shadowed) *)
   Definition multisequence_partition := partition.
